@@ -69,6 +69,13 @@ claimed = {
    note=(TB + "Assumed: storage sizes are multiples of the page size and below 2^48; the akita page table is an external component (extern declarations); deviceIDByPAddr enters through a trusted contract "
          "(map iteration is not modelled). One genuine defect repaired (stale live-page entry after Free). Observed, not decided by a check: Driver.FreeMemory frees only the first page of a multi-page buffer."),
    design="5 (C10)", technique="deductive verification: WP-style VC generation over go/ssa + SMT (queue view of the free list, loop invariant with page-size case split)"),
+ "C15": dict(
+   text=("Step contracts of the reorder buffer, for every state and message: the copies forwarded to the lower level carry the requester's address, size, PID, data and dirty mask unchanged and are addressed to the bottom unit "
+         "(duplicateReadReq/duplicateWriteReq, with the akita builders inlined); bottomUp answers only the head transaction, only when its response has arrived, and retires it only after the top port accepted the response; "
+         "topDown records a transaction only after the bottom port accepted its copy; after an acknowledged discard or restart no transaction is left (so no response of a discarded request can be matched). "
+         "The whole-history statement (responses in acceptance order, exactly once, capacity) follows from these steps only by an argument over tick interleavings that is not mechanised here."),
+   note=(TB + "akita ports, message accessors and the id generator are external (extern declarations); container/list and the akita message builders are inlined from their sources."),
+   design="5 (C15)", technique="deductive verification: WP-style VC generation over go/ssa + SMT (call-site obligations on the step functions)"),
  "C17": dict(
    text=("Under contract: interleavedBankSelector.Select (the bank depends only on the address and lies in [0, numBanks)); middleware.finalizeWrite (site obligations at the two Storage.Write calls: "
          "an unmasked write hands over the request data, a masked write hands over exactly request bytes where the mask is set and the bytes just read elsewhere, for every length and mask); "
